@@ -58,7 +58,7 @@ func isRequestKeys(v ssa.Value) bool {
 func c09(c *Ctx) {
 	p, r := c.P, c.R
 	r.Technique = "must-pass-through (cut) checks of the per-key acceptance gates and of the count gate; correlation analysis of permit / connection id / listening goroutine / verdicts on every path of the OFFER handler; value-flow of queue element fields"
-	r.Explanation = "Decides: (R1) the verdict container is created with one slot per offered key in both encodings and the two ACCEPT codecs enforce exactly the limits their tags declare (the schema check of C14.R1, so 0..64 keys encode and decode); (R2) inside the filter loops a key is appended to the accepted list, and marked accepted, only under in-range = true, storage.Get error != nil and (code-list encoding) not in the in-flight cache, and marking and appending happen together; (R3) in the OFFER handler the goroutine that waits on the connection is started only on the edge where a transfer slot was obtained, the connection id announced is the Send id of the very connection that goroutine accepts on and is 0 on every other path, and on the no-slot path the accepted verdicts of every accept encoding the filters can produce are overwritten; (R4) the validation queue receives an element only under len(keys) == len(contents), carrying the accepted-keys value and the decoded contents unmodified; (R5) on the offering side accepted indices are used only after the verdict count equalled the number offered and a non-empty accepted set, and contents are selected by accepted index in order; (R6) keys cached as in-flight by the receiving goroutine are removed by a deferred call on all its exits. Not decided: concurrency of overlapping offers, delivery, the behaviour of the uTP dependency."
+	r.Explanation = "Decides: (R1) the verdict container is created with one slot per offered key in both encodings and the two ACCEPT codecs enforce exactly the limits their tags declare (the schema check of C14.R1, so 0..64 keys encode and decode); (R2) inside the filter loops a key is appended to the accepted list, and marked accepted, only under in-range = true, storage.Get error != nil and (code-list encoding) not in the in-flight cache, and marking and appending happen together; (R3) in the OFFER handler the goroutine that waits on the connection is started only on the edge where a transfer slot was obtained, the connection id announced is the Send id of the very connection that goroutine accepts on and is 0 on every other path, and on the no-slot path the accepted verdicts of every accept encoding the filters can produce are overwritten; once started, the receiving goroutine reaches the wait on the announced connection id on every path except cancellation; (R4) the validation queue receives an element only under len(keys) == len(contents), carrying the accepted-keys value and the decoded contents unmodified; (R5) on the offering side accepted indices are used only after the verdict count equalled the number offered and a non-empty accepted set, and contents are selected by accepted index in order; (R6) keys cached as in-flight by the receiving goroutine are removed by a deferred call on all its exits. Not decided: concurrency of overlapping offers, delivery, the behaviour of the uTP dependency."
 	r.Assumptions = []string{"go-bitfield Bitlist semantics", "uTP AcceptWithCid waits on exactly the given connection id"}
 	r.Floor("R1.verdict-length", 3)
 	r.Floor("R2.accept-gates", 6)
@@ -403,6 +403,47 @@ func c09(c *Ctx) {
 			})
 			w = core.InstrGuarded(acceptGo, someKeys, nil)
 			r.Check(w == nil, "R3.handler-correlation", name+" listen-only-with-keys", p.Pos(acceptGo.Pos()), "the goroutine starts only when at least one key was accepted", "a receiving goroutine can start although no key was accepted: "+p.PathString(w))
+			// ... and once started it does wait: the reply already announces the connection id, so
+			// every way out of the goroutine passes the wait on that id - except being cancelled
+			if gf := core.StaticCalleeFn(acceptGo); gf != nil {
+				waitBlocks := core.BlocksWith(gf, func(in ssa.Instruction) bool {
+					ci, ok := in.(ssa.CallInstruction)
+					return ok && strings.HasSuffix(core.CalleeID(ci), utpAcceptWithCid)
+				})
+				cancelled := core.AnyFact(func(f core.Fact) bool {
+					if f.Op != token.EQL {
+						return false
+					}
+					for _, pr := range [][2]ssa.Value{{f.X, f.Y}, {f.Y, f.X}} {
+						ex, ok := pr[0].(*ssa.Extract)
+						if !ok || ex.Index != 0 {
+							continue
+						}
+						sel, ok := ex.Tuple.(*ssa.Select)
+						k, isC := core.ConstInt(pr[1])
+						if !ok || !isC || int(k) >= len(sel.States) || k < 0 {
+							continue
+						}
+						if cc, isCall := sel.States[k].Chan.(*ssa.Call); isCall && cc.Call.IsInvoke() && cc.Call.Method.Name() == "Done" {
+							return true
+						}
+					}
+					return false
+				})
+				wq := core.CutReach(core.CutSpec{Fn: gf,
+					Cut: func(b *ssa.BasicBlock, i int) bool { return waitBlocks[b.Succs[i]] || cancelled(core.EdgeFacts(b, i)) },
+					Target: func(prev, b *ssa.BasicBlock) bool {
+						if waitBlocks[b] || len(b.Instrs) == 0 {
+							return false
+						}
+						_, isRet := b.Instrs[len(b.Instrs)-1].(*ssa.Return)
+						return isRet
+					}})
+				if waitBlocks[gf.Blocks[0]] {
+					wq = nil
+				}
+				r.Check(wq == nil && len(waitBlocks) > 0, "R3.handler-correlation", name+" started-goroutine-waits", p.Pos(acceptGo.Pos()), "every exit of the receiving goroutine passes the wait on the announced connection id (or its cancellation)", "the receiving goroutine can return without ever waiting on the connection id the reply announces: the offerer dials a connection nobody accepts, and the accepted contents never reach validation: "+p.PathString(wq))
+			}
 			// announced id: the value given to PutUint16 is phi(0..., load connId.Send in the go block)
 			var idv ssa.Value
 			core.Calls(handler, func(ci ssa.CallInstruction) {
